@@ -100,6 +100,22 @@ func runC05(c *fw.Ctx) {
 			c05Along1(k, in, ref.Stat(oi), x)
 		})
 	}
+	for i := 0; i < c.Pick(1500, 15000); i++ { // one long dimension (127..4097): reduce along it and along the short ones
+		c.Case(func(k *fw.K) {
+			shape, long := LongShape(k.Rng, 3, 4097)
+			dim := long
+			if k.Rng.Intn(3) == 0 {
+				dim = k.Rng.Intn(len(shape))
+			}
+			oi := k.Rng.Intn(len(c05Along))
+			x, cname := c05Data(k, k.Rng.Intn(3), shape)
+			in := ref.Instr{Op: c05Along[oi], Dim: dim}
+			k.Case = map[string]any{"op": in.Op, "dim": dim, "shape": shape, "class": cname}
+			k.Key("%s/%s/%d/%s", in.Op, shapeKey(shape), dim, cname)
+			k.Count("along_cases_long_dimension", 1)
+			c05Along1(k, in, ref.Stat(oi), x)
+		})
+	}
 	// ---- whole-tensor forms ----
 	whole := Shapes(0, R, 3)
 	large := [][]int{{4096}, {8192}, {64, 64}, {2, 4096}, {4096, 2}, {16, 16, 16}, {1, 4096}, {128, 33}, {5, 7, 11, 13}, {2, 2, 2, 2, 2, 128}, {1000}, {37, 111}}
@@ -107,6 +123,9 @@ func runC05(c *fw.Ctx) {
 		large = large[:7]
 	}
 	whole = append(whole, large...)
+	for _, n := range LongSizes {
+		whole = append(whole, []int{n}, []int{2, n}, []int{n, 3})
+	}
 	for _, shape := range whole {
 		for class := 0; class < 3; class++ {
 			shape, class := shape, class
